@@ -99,6 +99,12 @@ func c08r1011(p *model.Prog, r *report.Result, runLoop *ssa.Function) {
 		fn := p.Func("pkg/rtmp", name)
 		msgP := fn.Params[0]
 		ev := &cEval{fn: fn,
+			lenOf: func(x ssa.Value) (int64, bool) {
+				if x == ssa.Value(msgP) {
+					return 0, true
+				}
+				return 0, false
+			},
 			seed: func(v ssa.Value) (int64, bool) {
 				if c, ok := v.(*ssa.Call); ok {
 					if b, isB := c.Call.Value.(*ssa.Builtin); isB && b.Name() == "len" && c.Call.Args[0] == ssa.Value(msgP) {
